@@ -225,7 +225,7 @@ def corr(ctx, oracle_only=False):
     # the COMPOSED step (KWNFull.eulerStep): transport, correction, truncation, extension / re-mesh and the recorded statistics of every
     # accepted step of real runs must be those of the model given the same entry state and backend answers
     if True:      # in the oracle-only pass (search, replay) the scenarios run with their direct oracles, without the model
-        kwnfull.refine_scenarios(ctx, res, PROP, [('alzr-loaded', ctx.n(80, 170)), ('alzr-small-grid', ctx.n(400, 1500)), ('alzr-loaded@rk4', ctx.n(50, 170)), ('nicral@2solves', ctx.n(40, 150)), ('alzr-small-grid@record', ctx.n(250, 800)), ('alzr-loaded-dilute', ctx.n(150, 500)), ('alzr-preloaded', ctx.n(25, 80)), ('alzr-fixed-grid', ctx.n(60, 250)), ('nicral@stop', ctx.n(60, 200)), ('nicral@stop@rk4', ctx.n(60, 200)), ('alzr-minradius', ctx.n(60, 300)), ('alzr-top-loaded@rk4', ctx.n(40, 150))] +
+        kwnfull.refine_scenarios(ctx, res, PROP, [('alzr-loaded', ctx.n(80, 170)), ('alzr-small-grid', ctx.n(400, 1500)), ('alzr-loaded@rk4', ctx.n(50, 170)), ('nicral@2solves', ctx.n(40, 150)), ('alzr-small-grid@record', ctx.n(250, 800)), ('alzr-loaded-dilute', ctx.n(150, 500)), ('alzr-preloaded', ctx.n(25, 80)), ('alzr-fixed-grid', ctx.n(60, 250)), ('alzr-small-grid@record@reset', ctx.n(30, 120)), ('alzr-top-loaded@record', ctx.n(60, 200)), ('nicral@stop', ctx.n(60, 200)), ('nicral@stop@rk4', ctx.n(60, 200)), ('alzr-minradius', ctx.n(60, 300)), ('alzr-top-loaded@rk4', ctx.n(40, 150))] +
                                  ([('almgsi-2phase-loaded', 200), ('nicral', 300), ('alzr-small-grid@2solves', 200)] if ctx.thorough else []),
                                  oracles=('continuity', 'volume', 'recorded', 'grid', 'setuprow', 'budget', 'topflow', 'stored'), driver=not oracle_only)
     vlib.finish_guard(res)
